@@ -271,7 +271,7 @@ NEAR_MISSES = [
     b"[-1, 2]", b"[ -1, 2]", b"[+1]", b"[1, 2,]", b"[,]", b"[1 2]", b"[1 : 2, 3]", b"[1 : 2, 3 : 4,]", b"{/a : 1,}", b"{}", b"[]",
     b"fn:map()", b"{/a 1}", b"p()", b"p(,)", b"p(1,)", b"p(q(1))", b"fn:f(p(1))", b"[p(1)]", b"1.", b".5", b"-.5", b"1.5e3", b"1.5e",
     b"1e5", b"-", b"--1", b"007", b"-0", b"9223372036854775807", b"9223372036854775808", b"-9223372036854775808",
-    b"-9223372036854775809", b"7d", b"7m", b"5ms", b"2024-01-15", b"2024-01-15T10:30:00Z", b"2024-01-1", b"12024-01-15", b"/a/", b"/",
+    b"-9223372036854775809", b"010", b"-010", b"00", b"09", b"0x10", b"7d", b"7m", b"5ms", b"2024-01-15", b"2024-01-15T10:30:00Z", b"2024-01-1", b"12024-01-15", b"/a/", b"/",
     b"//a", b"/a//b", b"/a.b-c_d~e%f", b"/a b", b"X", b"_", b"_x", b"X_1", b"X.y", b"X:", b"[X: 1]", b"[X : 1]", b"Package", b"Use",
     b"let", b"do", b"now", b"opt(1)", b"bound(1)", b"b", b"b(1)", b"b\"x\"", b"b'x'", b"b`x`", b"`a\\nb`", b"`a\\`b`", b"'a\"b'", b"\"a'b\"",
     b"\"a\\qb\"", b"\"\\x4g\"", b"\"\\x4A\"", b"\"\\x4a\"", b"\"\\u{41}\"", b"\"\\u{0041}\"", b"\"\\u{000041}\"", b"\"\\u{0000041}\"",
@@ -461,16 +461,16 @@ def run(ck):
     for c in corpus_cases():
         groups_in[c["kind"]].append(input_from_json(c["kind"], c["input"]))
         ncorpus += 1
-    for _ in range(ck.n(350, 12000)):
+    for _ in range(ck.n(300, 12000)):
         groups_in["const"].append(gen_const(rng, rng.choice([0, 1, 2, 2, 3] if ck.quick else [0, 1, 2, 3, 4])))
     nexh = 0
     if not ck.quick:
         ex = exhaustive_items()
         nexh = len(ex)
         groups_in["const"] += ex
-    for _ in range(ck.n(150, 5000)):
+    for _ in range(ck.n(120, 5000)):
         groups_in["atom"].append(gen_atom(rng, rng.choice([0, 1, 2]), 0.25))
-    for _ in range(ck.n(120, 4000)):
+    for _ in range(ck.n(100, 4000)):
         groups_in["term"].append(("app", rng.choice(FNS), [gen_base(rng, 2, 0.3, 0.4) for _ in range(rng.choice([0, 1, 2, 3]))]))
     for _ in range(ck.n(600, 30000)):
         groups_in["clause"].append(gen_clause(rng))
@@ -479,7 +479,7 @@ def run(ck):
     # texts for the parser correspondence: printed constants and atoms, mutants of them, hand-written near misses
     printed = [bytes.fromhex(o["out"]["s"]) for k in ("const", "atom", "term") for _, o, _ in groups[k] if "out" in o]
     texts = list(NEAR_MISSES) + groups_in["parse"]
-    nmut = ck.n(450, 12000)
+    nmut = ck.n(350, 12000)
     pool = [s for s in printed if len(s) <= 120]
     for _ in range(nmut):
         s = mutate_text(rng, rng.choice(pool))
@@ -492,7 +492,7 @@ def run(ck):
     # escape / unescape on arbitrary byte strings
     un, es = list(groups_in["unescape"]), list(groups_in["escape"])
     ualpha = b"\\\\\\\\xxuu{{}}nt\"'`\n\r\r0123456789abcdefABCDEFg qz\x00\x7f"
-    for _ in range(ck.n(300, 10000)):
+    for _ in range(ck.n(250, 10000)):
         n = rng.choice([0, 1, 2, 3, 4, 6, 9, 12])
         s = bytearray()
         for _ in range(n):
@@ -506,11 +506,16 @@ def run(ck):
             else:
                 s.append(rng.randrange(256))
         un.append((bytes(s), rng.random() < 0.4))
-    for _ in range(ck.n(200, 6000)):
+    for _ in range(ck.n(150, 6000)):
         b = rng.random() < 0.4
         q = rng.random()
         s = gen_string(rng) if q < 0.6 else bytes(rng.randrange(256) for _ in range(rng.choice([1, 2, 3, 5])))
         es.append((s, b))
+    # hex digits at the edges of the accepted ranges, in \x and \u{...}
+    for ch in b"09afAFgG/:@`":
+        for m in (False, True):
+            un += [(b"\\x0" + bytes([ch]), m), (b"\\x" + bytes([ch]) + b"0", m),
+                   (b"\\u{000" + bytes([ch]) + b"}", m), (b"\\u{" + bytes([ch]) + b"000}", m)]
     if not ck.quick:
         es += [(bytes([c]), m) for c in range(256) for m in (False, True)]
         un += [(bytes([0x5C, c]), m) for c in range(256) for m in (False, True)]
